@@ -275,8 +275,7 @@ void process_component(const XmlElement& xf, const Components& components, const
 	else
 	{
 		for(XmlElement::XmlSet::const_iterator itr(citr->second->begin()); itr != citr->second->end(); ++itr)
-			process_elements(itr, components, depth, outf, name,
-				depth == 3 ? comp_required : comp_required && required);
+			process_elements(itr, components, depth, outf, name, comp_required && required); // a required component inside an optional one stays optional
 	}
 }
 
